@@ -9,6 +9,8 @@ use crate::protocols::types::{CommonPlayer, CommonResponse};
 use crate::protocols::{GenericResponse};
 use crate::protocols::types::GenericPlayer;
 
+// a player name that is either empty or not (an adaptor that filters or special-cases empty names is then visible)
+fn any_name() -> String { if kani::any() { String::new() } else { String::from("pl") } }
 fn same_str(a: &str, b: &str) -> bool { a.as_ptr() == b.as_ptr() && a.len() == b.len() }
 fn opt_same(a: Option<&str>, b: &str) -> bool { match a { Some(x) => same_str(x, b), None => false } }
 
@@ -22,7 +24,7 @@ fn empty_set<K>() -> std::collections::HashSet<K> { std::collections::HashSet::w
 #[kani::unwind(4)]
 fn common_valve() {
     use crate::protocols::valve::{Response, ServerInfo, ServerPlayer, Server, Environment};
-    let p = ServerPlayer { name: String::from("pl"), score: kani::any(), duration: 1.5, deaths: None, money: None };
+    let p = ServerPlayer { name: any_name(), score: kani::any(), duration: 1.5, deaths: None, money: None };
     let r = Response {
         info: ServerInfo {
             protocol_version: kani::any(), name: String::from("nm"), map: String::from("mp"), folder: String::from("f"), game_mode: String::from("gm"),
@@ -67,7 +69,7 @@ fn common_gamespy_one() {
     use crate::protocols::gamespy::one::{Player, Response};
     use crate::protocols::gamespy::{VersionedPlayer, VersionedResponse};
     let p = Player {
-        name: String::from("pl"), team: None, ping: kani::any(), face: None, skin: None, mesh: None,
+        name: any_name(), team: None, ping: kani::any(), face: None, skin: None, mesh: None,
         score: kani::any(), deaths: None, health: None, secret: None,
     };
     let r = Response {
@@ -105,7 +107,7 @@ fn common_gamespy_one() {
 fn common_gamespy_two() {
     use crate::protocols::gamespy::two::{Player, Response, Team};
     use crate::protocols::gamespy::{VersionedPlayer, VersionedResponse};
-    let p = Player { name: String::from("pl"), score: kani::any(), ping: kani::any(), team_index: kani::any() };
+    let p = Player { name: any_name(), score: kani::any(), ping: kani::any(), team_index: kani::any() };
     let r = Response {
         name: String::from("nm"), map: String::from("mp"), has_password: kani::any(),
         teams: vec![Team { name: String::from("t"), score: kani::any() }],
@@ -141,7 +143,7 @@ fn common_gamespy_two() {
 fn common_gamespy_three() {
     use crate::protocols::gamespy::three::{Player, Response, Team};
     use crate::protocols::gamespy::{VersionedPlayer, VersionedResponse};
-    let p = Player { name: String::from("pl"), score: kani::any(), ping: kani::any(), team: kani::any(), deaths: kani::any(), skill: kani::any() };
+    let p = Player { name: any_name(), score: kani::any(), ping: kani::any(), team: kani::any(), deaths: kani::any(), skill: kani::any() };
     let r = Response {
         name: String::from("nm"), map: String::from("mp"), has_password: kani::any(),
         game_mode: String::from("gm"), game_version: String::from("v"),
@@ -182,7 +184,7 @@ fn common_gamespy_three() {
 #[kani::unwind(4)]
 fn common_java() {
     use crate::games::minecraft::{JavaResponse, Player, Server, VersionedResponse};
-    let p = Player { name: String::from("pl"), id: String::from("id") };
+    let p = Player { name: any_name(), id: String::from("id") };
     let r = JavaResponse {
         game_version: String::from("v"), protocol_version: kani::any(), players_maximum: kani::any(), players_online: kani::any(),
         players: Some(vec![p]), description: String::from("ds"), favicon: None, previews_chat: None, enforces_secure_chat: None,
@@ -287,7 +289,7 @@ fn common_quake_one() {
     use crate::protocols::quake::one::Player;
     use crate::protocols::quake::{Response, VersionedResponse};
     let p = Player {
-        id: kani::any(), score: kani::any(), time: kani::any(), ping: kani::any(), name: String::from("pl"), skin: String::from("sk"),
+        id: kani::any(), score: kani::any(), time: kani::any(), ping: kani::any(), name: any_name(), skin: String::from("sk"),
         color_primary: kani::any(), color_secondary: kani::any(),
     };
     let r: Response<Player> = Response {
@@ -323,7 +325,7 @@ fn common_quake_one() {
 fn common_quake_two() {
     use crate::protocols::quake::two::Player;
     use crate::protocols::quake::{Response, VersionedResponse};
-    let p = Player { score: kani::any(), ping: kani::any(), name: String::from("pl"), address: None };
+    let p = Player { score: kani::any(), ping: kani::any(), name: any_name(), address: None };
     let r: Response<Player> = Response {
         name: String::from("nm"), map: String::from("mp"), players: vec![p], players_online: kani::any(), players_maximum: kani::any(),
         game_version: None, unused_entries: empty_map(),
@@ -360,7 +362,7 @@ fn common_quake_two() {
 #[kani::unwind(4)]
 fn common_unreal2() {
     use crate::protocols::unreal2::{MutatorsAndRules, Player, Players, Response, ServerInfo};
-    let p = Player { id: kani::any(), name: String::from("pl"), ping: kani::any(), score: kani::any(), stats_id: kani::any() };
+    let p = Player { id: kani::any(), name: any_name(), ping: kani::any(), score: kani::any(), stats_id: kani::any() };
     let r = Response {
         server_info: ServerInfo {
             server_id: kani::any(), ip: String::from("ip"), game_port: kani::any(), query_port: kani::any(),
@@ -404,7 +406,7 @@ fn common_unreal2() {
 #[kani::unwind(4)]
 fn common_epic() {
     use crate::protocols::epic::{Player, Response};
-    let p = Player { name: String::from("pl") };
+    let p = Player { name: any_name() };
     let r = Response {
         name: String::from("nm"), map: String::from("mp"), has_password: kani::any(), players_online: kani::any(), players_maxmimum: kani::any(),
         players: vec![p], game_version: Some(String::from("v")), raw: serde_json::Value::Null,
@@ -474,7 +476,7 @@ fn common_ffow() {
 fn common_theship() {
     use crate::games::theship::{Response, TheShipPlayer};
     use crate::protocols::valve::Server;
-    let p = TheShipPlayer { name: String::from("pl"), score: kani::any(), duration: 1.5, deaths: kani::any(), money: kani::any() };
+    let p = TheShipPlayer { name: any_name(), score: kani::any(), duration: 1.5, deaths: kani::any(), money: kani::any() };
     let r = Response {
         protocol_version: kani::any(), name: String::from("nm"), map: String::from("mp"), game_mode: String::from("gm"), game_version: String::from("v"),
         players: vec![p], players_online: kani::any(), players_maximum: kani::any(), players_bots: kani::any(),
@@ -532,7 +534,7 @@ fn common_theship_game_version() {
 #[kani::unwind(4)]
 fn common_jc2m() {
     use crate::games::jc2m::{Player, Response};
-    let p = Player { name: String::from("pl"), steam_id: String::from("id"), ping: kani::any() };
+    let p = Player { name: any_name(), steam_id: String::from("id"), ping: kani::any() };
     let r = Response {
         game_version: String::from("v"), description: String::from("ds"), name: String::from("nm"), has_password: kani::any(),
         players: vec![p], players_maximum: kani::any(), players_online: kani::any(),
@@ -595,7 +597,7 @@ fn common_savage2() {
 #[kani::unwind(4)]
 fn common_minetest() {
     use crate::games::minetest::{Player, Response};
-    let p = Player { name: String::from("pl") };
+    let p = Player { name: any_name() };
     let hp: bool = kani::any();
     let r = Response {
         name: String::from("nm"), description: String::from("ds"), game_version: String::from("v"),
@@ -671,7 +673,7 @@ fn common_mindustry() {
 #[kani::unwind(4)]
 fn common_eco() {
     use crate::games::eco::{Player, Response};
-    let p = Player { name: String::from("pl") };
+    let p = Player { name: any_name() };
     let r = Response {
         external: kani::any(), port: kani::any(), query_port: kani::any(), is_lan: kani::any(),
         description: String::from("ds"), description_detailed: String::from("dd"), description_economy: String::from("de"),
